@@ -1283,7 +1283,23 @@ class XsdElement(XsdComponent, ParticleMixin,
 
         :returns: `True` if there is no inconsistency between the particles, `False` otherwise,
         """
-        return self.name != other.name or self.type is other.type
+        if isinstance(other, XsdAnyElement):
+            return True
+
+        e1: XsdElement = self
+        e2 = other
+        if self.name != other.name:
+            for e1 in self.iter_substitutes():
+                if e1.name == other.name:
+                    break
+            else:
+                for e2 in other.iter_substitutes():
+                    if e2.name == self.name:
+                        break
+                else:
+                    return True
+
+        return e1.type is e2.type
 
     def is_single(self) -> bool:
         if self.parent is None:
